@@ -239,35 +239,62 @@ def d5(chk, prog):
 
 def d6(chk, prog):
     chk.clause("D6", "center_by_window: one seeded permutation for bins and covariate, stable sort, rolling median subtracted, genomic re-sort")
+    chk.rule("deterministic-correction", "center_by_window interpreted on six bins with tied covariate values: the draw is preceded by a constant seed; the rolling median is "
+             "taken over log2 in non-decreasing covariate order (ties in the seeded shuffle order); every bin gets the value at its own rank subtracted; the result is "
+             "re-sorted; the caller's array is untouched")
     fi = prog.fn(f"{FIX}.center_by_window")
-    par = parents(fi.node)
-    src = {norm(n.targets[0]): n for n in own_nodes(fi.node) if isinstance(n, ast.Assign) and len(n.targets) == 1}
-    draws = [n for n in own_nodes(fi.node) if rules.is_global_draw(n)]
-    chk.floor("random draws in center_by_window", len(draws), 1)
-    for d in draws:
-        chk.decide(rules.seeded_in_function(fi, d, par), "deterministic-correction", f"{norm(d)[:40]} is dominated by a constant np.random.seed", f"{fi.qn}::seed", fi.loc(d),
-                   "the tie-breaking shuffle must be seeded with a constant: otherwise fix output changes from run to run")
-    perm_names = [norm(n.targets[0]) for n in own_nodes(fi.node) if isinstance(n, ast.Assign) and n.value in draws]
-    p = perm_names[0] if perm_names else "?"
-    uses = [norm(n) for n in own_nodes(fi.node) if isinstance(n, ast.Subscript) and norm(n.slice) == p]
-    ok = any(u.startswith("df.iloc[") for u in uses) and any(u.startswith("sort_key[") for u in uses)
-    chk.decide(ok, "deterministic-correction", f"the same permutation `{p}` reorders the bins (df.iloc) and the covariate (sort_key)", f"{fi.qn}::shared permutation", fi.loc(),
-               f"bins and covariate must be shuffled by one permutation; uses of `{p}`: {uses}")
-    srt = [n for n in own_nodes(fi.node) if isinstance(n, ast.Call) and norm(n.func) in ("np.argsort",) or (isinstance(n, ast.Call) and isinstance(n.func, ast.Attribute) and n.func.attr == "argsort")]
-    ok = len(srt) == 1 and any(k.arg == "kind" and norm(k.value) in ("'mergesort'", "'stable'") for k in srt[0].keywords) and norm(srt[0].args[0] if srt[0].args else srt[0].func.value) == "sort_key"
-    chk.decide(ok, "deterministic-correction", "bins are ordered by the covariate with a stable sort", f"{fi.qn}::argsort", fi.loc(), "ordering by the bias covariate must use a stable sort (ties keep the seeded order)")
-    order_name = next((norm(n.targets[0]) for n in own_nodes(fi.node) if isinstance(n, ast.Assign) and srt and n.value is srt[0]), "?")
-    ok = any(isinstance(n, ast.Assign) and norm(n.targets[0]) == "df" and norm(n.value) == f"df.iloc[{order_name}]" for n in own_nodes(fi.node))
-    chk.decide(ok, "deterministic-correction", f"df = df.iloc[{order_name}]", f"{fi.qn}::apply order", fi.loc(), "the bins must be put in covariate order before smoothing")
-    rm = [n for n in own_nodes(fi.node) if isinstance(n, ast.Call) and norm(n.func) in ("smoothing.rolling_median",)]
-    ok = len(rm) == 1 and norm(rm[0].args[0]) == "df['log2']" and norm(rm[0].args[1]) == "fraction"
-    bname = next((norm(n.targets[0]) for n in own_nodes(fi.node) if isinstance(n, ast.Assign) and rm and n.value is rm[0]), "?")
-    sub = [n for n in own_nodes(fi.node) if isinstance(n, ast.AugAssign) and isinstance(n.op, ast.Sub) and norm(n.target) == "df['log2']" and norm(n.value) == bname]
-    ok = ok and len(sub) == 1 and rm[0].lineno < sub[0].lineno
-    chk.decide(ok, "deterministic-correction", "log2 -= rolling_median(log2 in covariate order, fraction)", f"{fi.qn}::bias subtraction", fi.loc(),
-               "each enabled correction must subtract the rolling median of log2 over the bins ordered by the covariate")
-    ok = any(isinstance(n, ast.Call) and norm(n.func) == "fixarr.sort" for n in own_nodes(fi.node)) and any(norm(r.value) == "fixarr" for r in own_nodes(fi.node) if isinstance(r, ast.Return))
-    chk.decide(ok, "deterministic-correction", "the corrected bins are re-sorted genomically before return", f"{fi.qn}::re-sort", fi.loc(), "center_by_window must return the bins in genomic order")
+    tb = Table(chk, "deterministic-correction", "center_by_window on 6 bins (covariate as Series / ndarray; with ties)", fi.loc(), fi.qn)
+    perm = [3, 0, 5, 1, 4, 2]
+    for as_series in (True, False):
+        W.reset()
+        keys = [Fr(5, 10), Fr(2, 10), Fr(5, 10), Fr(9, 10), Fr(2, 10), Fr(7, 10)]
+        ev = []
+        model = Model()
+        model.ext["np.random.seed"] = lambda it, s, ev=ev: ev.append(("seed", s))
+
+        def permutation(it, x, ev=ev):
+            ev.append(("draw", "permutation"))
+            return list(perm)
+        model.ext["np.random.permutation"] = permutation
+
+        def argsort(it, k, kind=None, **kw):
+            ev.append(("argsort", kind))
+            vals = list(k.v) if isinstance(k, Vec) else list(k)
+            if kind in ("mergesort", "stable"):
+                return sorted(range(len(vals)), key=lambda i: vals[i])
+            # an unstable sort may order ties arbitrarily: model the adversarial choice (ties reversed)
+            return sorted(range(len(vals)), key=lambda i: (vals[i], -i))
+        model.ext["np.argsort"] = argsort
+        model.method_hooks.append(lambda it, obj, name, args, kw: argsort(it, obj, *args, **kw) if isinstance(obj, Vec) and name == "argsort" else NotImplemented)
+
+        def rolling(it, ser, frac, ev=ev):
+            ev.append(("rolling_median", [repr(x) for x in ser.v], frac))
+            return Vec([Term.sym(f"bias_at_rank{r}") for r in range(len(ser.v))])
+        model.prims["cnvlib.smoothing.rolling_median"] = rolling
+        it = Interp(prog, model)
+        lg = [Term.sym(f"v{i}") for i in range(6)]
+        rows = [dict(chromosome="chr1", start=100 * i, end=100 * i + 50, gene="g", log2=lg[i]) for i in range(6)]
+        arr = make_ga("CopyNumArray", rows, {"sample_id": "S"}, index="any", exact=True)
+        key = Vec(keys, aligned=True) if as_series else Vec(keys)
+        out = tb.guard(lambda: it.run(fi.qn, [arr, Fr(1, 10), key]), f"covariate as {'Series' if as_series else 'ndarray'}")
+        if out is None:
+            continue
+        seeds = [e for e in ev if e[0] == "seed"]
+        draws = [i for i, e in enumerate(ev) if e[0] == "draw"]
+        ok_seed = bool(seeds) and isinstance(seeds[0][1], int) and bool(draws) and ev.index(seeds[0]) < draws[0]
+        # expected order: shuffle by perm, then stable sort by key
+        shuffled = list(perm)
+        order = sorted(range(6), key=lambda p: keys[shuffled[p]])
+        ranked = [shuffled[p] for p in order]                      # original row index at each rank
+        rm = [e for e in ev if e[0] == "rolling_median"]
+        ok_order = len(rm) == 1 and rm[0][1] == [repr(lg[i]) for i in ranked] and same(rm[0][2], Fr(1, 10))
+        got = {int(T(s_).cval()) // 100: v for s_, v in zip(out.data.cols["start"].v, out.data.cols["log2"].v)}
+        ok_sub = all(same(got[i], t_sub(lg[i], Term.sym(f"bias_at_rank{ranked.index(i)}"))) for i in range(6))
+        ok_sorted = "__sorted__" in out.data.cols and out is not arr and all(same(a, b) for a, b in zip(arr.data.cols["log2"].v, lg))
+        sorts = [e for e in ev if e[0] == "argsort"]
+        tb.cell(ok_seed and ok_order and ok_sub and ok_sorted, dict(covariate="Series" if as_series else "ndarray", seeded_before_draw=ok_seed, sort_kind=sorts[0][1] if sorts else None,
+                                                                     smoothing_order=rm[0][1] if rm else None, want_order=[repr(lg[i]) for i in ranked], subtraction_ok=ok_sub, resorted_and_input_untouched=ok_sorted))
+    tb.done("the windowed bias correction is not (seeded shuffle, stable sort by the covariate, rolling median of log2 in that order subtracted bin by bin, re-sorted)")
 
 
 def d7(chk, prog):
@@ -448,5 +475,8 @@ MUTANTS = [
     dict(name="edge loss shoulder sign", file=_F, old="    losses[small_mask] -= (insert_size - t_small) ** 2 / (2 * insert_size * t_small)", new="    losses[small_mask] += (insert_size - t_small) ** 2 / (2 * insert_size * t_small)"),
     dict(name="edge gain mask <=", file=_F, old="    past_other_side_mask = target_sizes + gap_sizes < insert_size", new="    past_other_side_mask = target_sizes + gap_sizes <= insert_size", expect="silent"),
     dict(name="edge bias sign", file=_F, old="        output_by_chrom.append(gains - losses)", new="        output_by_chrom.append(losses - gains)"),
+    dict(name="twin: permutation variable renamed", edits=[(_F, "shuffle_order", "perm", True)], expect="silent"),
+    dict(name="twin: stable sort through the array method", file=_F, old='    order = np.argsort(sort_key, kind="mergesort")', new='    order = sort_key.argsort(kind="stable")', expect="silent"),
+    dict(name="twin: matched reference variable renamed in load_adjust_coverages", edits=[(_F, "ok_cvg_indices", "keep_mask", True)], expect="silent"),
     dict(name="twin: mask comparison flipped", file=_F, old='        | (cnarr["spread"] > params.MAX_REF_SPREAD)', new='        | (params.MAX_REF_SPREAD < cnarr["spread"])', expect="silent"),
 ]
